@@ -82,16 +82,14 @@ theorem convexe_base (tau : Nat) (ht : 0 < tau) :
   have hb : 1 / (tau : Rat) ≤ 1 := by rw [div_le_iff₀ h0]; linarith
   constructor <;> linarith
 
-/-- all three rational built-ins stay within [0, 1] × initial damage (linear: up to `tau` steps) -/
-theorem linear_range (tau : Nat) (e : Int) (h0 : 0 ≤ e) (h1 : e ≤ tau) (ht : 0 < tau) :
+/-- all three rational built-ins stay within [0, 1] × initial damage, for every elapsed time ≥ 0 -/
+theorem linear_range (tau : Nat) (e : Int) (h0 : 0 ≤ e) (ht : 0 < tau) :
     0 ≤ gLinear tau e ∧ gLinear tau e ≤ 1 := by
   unfold gLinear
   have ht' : (0 : Rat) < (tau : Rat) := by exact_mod_cast ht
   have h0' : (0 : Rat) ≤ (e : Rat) := by exact_mod_cast h0
-  have h1' : (e : Rat) ≤ (tau : Rat) := by exact_mod_cast h1
   have ha : 0 ≤ (e : Rat) / (tau : Rat) := div_nonneg h0' (le_of_lt ht')
-  have hb : (e : Rat) / (tau : Rat) ≤ 1 := by rw [div_le_iff₀ ht']; linarith
-  constructor <;> linarith
+  exact ⟨le_max_left _ _, max_le (by norm_num) (by linarith)⟩
 
 theorem convexe_range (tau : Nat) (e : Int) (ht : 0 < tau) :
     (0 ≤ gConvexe tau e ∧ gConvexe tau e ≤ 1) ∧ (0 ≤ gConvexeScaled tau e ∧ gConvexeScaled tau e ≤ 1) := by
@@ -106,7 +104,7 @@ theorem linear_antitone (tau : Nat) (e e' : Int) (h : e ≤ e') (ht : 0 < tau) :
   have ht' : (0 : Rat) < (tau : Rat) := by exact_mod_cast ht
   have h' : (e : Rat) ≤ (e' : Rat) := by exact_mod_cast h
   have := div_le_div_of_nonneg_right h' (le_of_lt ht')
-  linarith
+  exact max_le_max (le_refl _) (by linarith)
 
 theorem convexe_antitone (tau : Nat) (e e' : Int) (h0 : 0 ≤ e) (h : e ≤ e') (ht : 0 < tau) :
     gConvexe tau e' ≤ gConvexe tau e ∧ gConvexeScaled tau e' ≤ gConvexeScaled tau e := by
@@ -116,11 +114,19 @@ theorem convexe_antitone (tau : Nat) (e e' : Int) (h0 : 0 ≤ e) (h : e ≤ e') 
   unfold gConvexe gConvexeScaled
   exact ⟨pow_le_pow_of_le_one hb.1 hb.2 hn, pow_le_pow_of_le_one hb.1 hb.2 (by omega)⟩
 
-/-- with linear recovery the damage is zero once exactly `tau` recovery steps are completed -/
+/-- with linear recovery the damage is zero once exactly `tau` recovery steps are completed … -/
 theorem linear_zero_at_tau (tau : Nat) (ht : 0 < tau) : gLinear tau (tau : Int) = 0 := by
   unfold gLinear
   have ht' : (tau : Rat) ≠ 0 := by exact_mod_cast (Nat.pos_iff_ne_zero.mp ht)
   simp [div_self ht']
+
+/-- … and stays zero afterwards (also when a step longer than one temporal unit jumps over `tau`) -/
+theorem linear_zero_after_tau (tau : Nat) (e : Int) (ht : 0 < tau) (he : (tau : Int) ≤ e) : gLinear tau e = 0 := by
+  unfold gLinear
+  have ht' : (0 : Rat) < (tau : Rat) := by exact_mod_cast ht
+  have he' : (tau : Rat) ≤ (e : Rat) := by exact_mod_cast he
+  have : 1 ≤ (e : Rat) / (tau : Rat) := by rw [le_div_iff₀ ht']; linarith
+  exact max_eq_left (by linarith)
 
 /-- … so a linearly recovering capital event is finished at that step -/
 theorem linear_finished_at_tau (t : Nat) (tr : Tracker d) (hs : tr.status = .recovering)
